@@ -1578,10 +1578,6 @@ func (p *Posix) CompleteMultipartUpload(ctx context.Context, input *s3.CompleteM
 
 	userMetaData := make(map[string]string)
 	objMeta := p.loadObjectMetaData(bucket, upiddir, nil, userMetaData)
-	err = p.storeObjectMetadata(f.File(), bucket, object, objMeta)
-	if err != nil {
-		return nil, err
-	}
 
 	objname := filepath.Join(bucket, object)
 	dir := filepath.Dir(objname)
@@ -1610,6 +1606,20 @@ func (p *Posix) CompleteMultipartUpload(ctx context.Context, input *s3.CompleteM
 	}
 
 	verifhook.Point("cmp.afterVersionCopy")
+	// drop the attributes of the object that is being replaced: a metadata
+	// store that keeps attributes by path (sidecar) would otherwise serve
+	// the old user metadata, content headers, tags or delete marker
+	// together with the new data. The new attributes are stored only
+	// after the previous object was archived with its own ones.
+	err = p.meta.DeleteAttributes(bucket, object)
+	if err != nil {
+		return nil, fmt.Errorf("remove old attributes: %w", err)
+	}
+	err = p.storeObjectMetadata(f.File(), bucket, object, objMeta)
+	if err != nil {
+		return nil, err
+	}
+
 	// if the versioning is enabled, generate a new versionID for the object
 	var versionID string
 	if p.versioningEnabled() && vEnabled {
@@ -2931,6 +2941,15 @@ func (p *Posix) PutObject(ctx context.Context, po s3response.PutObjectInput) (s3
 			return s3response.PutObjectOutput{}, err
 		}
 		versionID = nullVersionId
+	}
+
+	// drop the attributes of the object that is being replaced: a metadata
+	// store that keeps attributes by path (sidecar) would otherwise serve
+	// the old user metadata, content headers, tags or delete marker
+	// together with the new data
+	err = p.meta.DeleteAttributes(*po.Bucket, *po.Key)
+	if err != nil {
+		return s3response.PutObjectOutput{}, fmt.Errorf("remove old attributes: %w", err)
 	}
 
 	for k, v := range po.Metadata {
